@@ -230,6 +230,20 @@ impl Walrus {
             // provisional "nothing of this block yet" position - must start from the current
             // progress, or they move the durable cursor backwards.
             let tail_snapshot = (info.tail_block_id, info.tail_offset);
+            // If the writer sealed a block meanwhile, the sealed chain is no longer consumed
+            // (its path above continues from the progress that was carried over when the block
+            // was sealed), or the block snapshot taken above is not the active block any more.
+            // Going on here would record "everything sealed is consumed, nothing of the active
+            // block yet" for the wrong block (skipping unread entries, or rewinding behind
+            // consumed ones, after a restart) or fold a position remembered from before the
+            // seal back into the chain (delivering consumed entries again).
+            if info.cur_block_idx < info.chain.len()
+                || info.chain.last().map_or(false, |b| b.id >= active_block.id)
+            {
+                persisted_tail = None;
+                drop(info);
+                continue;
+            }
             if let Some((tail_block_id, tail_off)) = persisted_tail {
                 if tail_block_id != active_block.id {
                     if let Some(idx) = info
